@@ -29,8 +29,24 @@ def _bad(b, m):
 # ------------------------------------------------------------------ base58
 
 
+def _data_of(case):
+    if "zeros" in case:
+        return b"\0" * case["zeros"] + bytes.fromhex(case.get("data", ""))
+    if "lead0chk" in case:
+        # a payload, found by a short search over a counter suffix, whose four checksum bytes begin with 1-2 zero bytes
+        seed, want = case["lead0chk"]
+        base = bytes.fromhex(case.get("data", ""))
+        for ctr in range(200000):
+            d = base + ctr.to_bytes(3, "big")
+            if refenc.sha256d(d)[:want] == b"\0" * want:
+                return d
+        return base
+    return bytes.fromhex(case["data"])
+
+
 def o_b58_bytes(case):
-    data = bytes.fromhex(case["data"])
+    data = _data_of(case)
+    case = dict(case, data=data.hex() if len(data) <= 64 else data[:24].hex() + "..(%d bytes)" % len(data))
     enc = b2a_base58(data)
     ref = refenc.b58encode(data)
     if enc != ref:
@@ -126,6 +142,20 @@ def s_b58_runs():
     run = st.builds(lambda c, n: c * n, sym, st.sampled_from([1, 2, 7, 8, 9, 15, 16, 17, 24, 3, 5]))
     rnd = st.lists(st.sampled_from(B58), max_size=9).map("".join)
     return st.lists(st.one_of(run, run, rnd), min_size=1, max_size=7).map(lambda segs: {"s": "".join(segs)})
+
+
+def cases_b58_checksum_relations(tier):
+    """the four checksum bytes are a second field that travels with the payload: all-zero payloads of every length (their
+    checksum starts with 00 at 193, 1337, 1880, 2472 ... zero bytes) and payloads searched to have a checksum with one or
+    two leading zero bytes, with and without leading zero bytes of their own"""
+    for n in range(0, 2600 if tier == "quick" else 12000):
+        yield {"zeros": n}
+    for seed in range(24):
+        for lead in (0, 1, 3):
+            yield {"lead0chk": [seed, 1], "data": "00" * lead + "%02x" % (seed + 1) * (1 + seed % 7)}
+    for seed in range(3 if tier == "quick" else 12):
+        yield {"lead0chk": [seed, 2], "data": "%02x" % (0x30 + seed)}
+        yield {"lead0chk": [seed, 2], "data": "0000%02x" % (0x30 + seed)}
 
 
 def cases_b58_powers(tier):
@@ -525,6 +555,10 @@ SUBCHECKS = [
     SubCheck("b58_digit_runs", o_b58_string, strategy=s_b58_runs, budget=(4000, 300000),
              nontrivial=lambda c, l: len(c["s"]) >= 9,
              rule="alphabet strings made of runs of a repeated symbol (weighted to the zero digit '1' and the top digit 'z', run lengths around 8 / 16 / 24) mixed with random symbols: a2b == reference and b2a(a2b(s)) == s; non-trivial = at least 9 symbols"),
+    SubCheck("b58check_checksum_relations", o_b58_bytes, cases=cases_b58_checksum_relations, exhaustive=True,
+             nontrivial=lambda c, l: True,
+             rule="all-zero payloads of every length 0..2599 (thorough: ..11999), and payloads found by search whose checksum begins with one or "
+                  "two zero bytes (with 0 / 1 / 3 leading zero bytes of their own): plain and checksummed encodings equal the reference and round-trip"),
     SubCheck("b58_powers_of_58", o_b58_bytes, cases=cases_b58_powers, exhaustive=True,
              nontrivial=lambda c, l: True,
              rule="byte strings whose value is m*58^k + d, k = 0..40, m in {1,2,57,58,59}, d in {0,1,57,58}: encoder == reference and round trip"),
